@@ -36,7 +36,7 @@ pub fn run_check(replay: Option<Value>) -> i32 {
         dim("tol", &tols),
         dim("span", &spans),
         dim("jacobian", &["user", "finite-difference"]),
-        dim("events", &["none", "three event functions"]),
+        dim("events", &["none", "three event functions", "two roots 1e-6*span apart, the second terminal", "two roots 1e-6*span apart, the first terminal"]),
         dim("first_step", &["auto", "given"]),
     ];
     lattice(&mut rep, "reflect", &dims, only.as_deref(), |key, idx| {
@@ -55,11 +55,24 @@ pub fn run_check(replay: Option<Value>) -> i32 {
         if idx[5] == 1 {
             c.events = vec![EventSpec::new(EvKind::Y(0, 0.7 * p.y0[0])), EventSpec::new(EvKind::Cos(2.0)).dir(Direction::Positive), EventSpec::new(EvKind::T(x0 + 0.37 * span))];
         }
+        // two event functions with roots in the same accepted step, one of them terminal: the
+        // order in which the integration meets them decides what is reported
+        let (c1, c2) = (x0 + 0.37 * span, x0 + (0.37 + 1e-6) * span);
+        if idx[5] == 2 {
+            c.events = vec![EventSpec::new(EvKind::T(c1)), EventSpec::new(EvKind::T(c2)).term(1)];
+        } else if idx[5] == 3 {
+            c.events = vec![EventSpec::new(EvKind::T(c2)), EventSpec::new(EvKind::T(c1)).term(1)];
+        }
         let pr = reflect(p);
         let mut cr = c.clone();
         cr.x0 = -c.x0;
         cr.xend = -c.xend;
         cr.first_step = c.first_step.map(|h| -h);
+        if idx[5] == 2 {
+            cr.events = vec![EventSpec::new(EvKind::NegT(-c1)), EventSpec::new(EvKind::NegT(-c2)).term(1)];
+        } else if idx[5] == 3 {
+            cr.events = vec![EventSpec::new(EvKind::NegT(-c2)), EventSpec::new(EvKind::NegT(-c1)).term(1)];
+        }
         if idx[5] == 1 {
             // mirrored event functions: g'(s, z) = g(-s, z); cos is even, t - c becomes -(s + c)
             cr.events = vec![EventSpec::new(EvKind::Y(0, 0.7 * p.y0[0])), EventSpec::new(EvKind::Cos(2.0)).dir(Direction::Positive), EventSpec::new(EvKind::NegT(-(x0 + 0.37 * span)))];
@@ -77,7 +90,12 @@ pub fn run_check(replay: Option<Value>) -> i32 {
             (Some(sa), Some(sb)) => {
                 let tneg: Vec<f64> = sb.t.iter().map(|t| -t).collect();
                 let exact_expected = !is_implicit(m) || idx[4] == 0;
-                let same = bits_eq(&sa.t, &tneg) && sa.y.len() == sb.y.len() && sa.y.iter().zip(&sb.y).all(|(u, v)| bits_eq(u, v));
+                let mut same = bits_eq(&sa.t, &tneg) && sa.y.len() == sb.y.len() && sa.y.iter().zip(&sb.y).all(|(u, v)| bits_eq(u, v));
+                if !same && idx[5] >= 2 && sa.t.len() == sb.t.len() && sa.t.len() >= 2 {
+                    // the final sample is the located event point: mirrored within the root-finder's accuracy
+                    let k = sa.t.len() - 1;
+                    same = bits_eq(&sa.t[..k], &tneg[..k]) && sa.y[..k].iter().zip(&sb.y[..k]).all(|(u, v)| bits_eq(u, v)) && (sa.t[k] - tneg[k]).abs() <= 4e-11 * (1.0 + sa.t[k].abs());
+                }
                 if !same {
                     if exact_expected {
                         let k = sa.t.iter().zip(&tneg).position(|(u, v)| u.to_bits() != v.to_bits());
@@ -95,7 +113,7 @@ pub fn run_check(replay: Option<Value>) -> i32 {
                 if sa.status != sb.status {
                     viol!("reflection-status", format!("status {:?} vs {:?}", sa.status, sb.status));
                 }
-                if idx[5] == 1 {
+                if idx[5] >= 1 {
                     for i in 0..sa.t_events.len() {
                         let (ea, eb) = (&sa.t_events[i], &sb.t_events[i]);
                         if ea.len() != eb.len() || ea.iter().zip(eb).any(|(u, v)| (u + v).abs() > 4e-11 * (1.0 + u.abs())) {
@@ -103,6 +121,17 @@ pub fn run_check(replay: Option<Value>) -> i32 {
                         }
                     }
                     out.tag("events-mirrored");
+                    if idx[5] >= 2 {
+                        out.tag("terminal-pair-mirrored");
+                        // the reference semantics of the pair itself (both runs)
+                        for (s, sg) in [(sa, 1.0), (sb, -1.0)] {
+                            let want0 = idx[5] == 2; // the non-terminal root comes first in integration order
+                            let got0 = s.t_events[0].len() == 1 && (sg * s.t_events[0][0] - if idx[5] == 2 { c1 } else { c2 }).abs() <= 4e-11 * (1.0 + c1.abs());
+                            if s.status != Status::UserInterrupt || s.t_events[1].len() != 1 || (want0 != got0) || (!want0 && !s.t_events[0].is_empty()) {
+                                viol!("reflection-terminal-pair", format!("{} run: status {:?}, t_events {:?}; the non-terminal root lies {} the terminal one", if sg > 0.0 { "original" } else { "reflected" }, s.status, s.t_events, if want0 { "before" } else { "after" }));
+                            }
+                        }
+                    }
                 }
                 out.validated = 2;
                 out.fp = Some(a.st.fp.as_u128());
